@@ -22,6 +22,17 @@ class BodyError(Exception):
     pass
 
 
+class BodyErrorB(BaseException):
+    """a failure that derives directly from BaseException (like GeneratorExit or asyncio.CancelledError)"""
+
+
+class BodyErrorS(Exception):
+    """a failure whose str() fails itself"""
+
+    def __str__(self):
+        raise RuntimeError("str() of this exception fails")
+
+
 # ---------------------------------------------------------------------------
 # items
 # ---------------------------------------------------------------------------
@@ -228,7 +239,7 @@ def interp(ctx, aid, table):
                 res = do_op(ctx, aid, oi, table, op)
             except (HarnessError, TaskKilled):
                 raise
-            except BodyError:
+            except (BodyError, BodyErrorB, BodyErrorS):
                 ctx.rec(aid, oi, "ret", ("raised",))
                 cur.op = None
                 raise
@@ -576,7 +587,9 @@ def do_op(ctx, aid, oi, table, op):
     if k == "now":
         return ("val", s.now)
     if k == "raise":
-        raise BodyError(op[1] if len(op) > 1 else "body boom")
+        kind = op[2] if len(op) > 2 else "exc"
+        cls = {"exc": BodyError, "base": BodyErrorB, "badstr": BodyErrorS}[kind]
+        raise cls(op[1] if len(op) > 1 else "body boom")
     if k == "os_exit":
         import os as _os
         _os._exit(op[1])
